@@ -898,6 +898,53 @@ func fmtInt(c *PathCtx, t *Term, signed bool) *Term {
 	if w < 64 {
 		tt = tResize(t, 64, signed)
 	}
+	D := c.eng.cfg.IntFormatDigits
+	if c.entry != nil && c.entry.IntFormatDigits > 0 {
+		D = c.entry.IntFormatDigits
+	}
+	if D > 0 {
+		// exact decimal rendering for values assumed to lie in [0, 10^D): digits by
+		// narrow bit-vector division, characters by case analysis. The range restriction
+		// is a path assumption (reported in the evidence).
+		if D > 4 {
+			panic(inconclusive("int_format_digits > 4 not supported"))
+		}
+		lim := uint64(1)
+		for i := 0; i < D; i++ {
+			lim *= 10
+		}
+		c.assertTerm(tBVCmp("bvult", tt, mkBV(64, lim)))
+		c.res.Reached[fmt.Sprintf("assume:formatted-integer-in-[0,10^%d)", D)]++
+		if c.pos >= len(c.prefix) {
+			if r := c.checkSat(); r == "unsat" {
+				c.abort("infeasible", "formatted integer outside the modelled range")
+			}
+		}
+		x := tExtract(15, 0, tt)
+		digit := func(d *Term) *Term {
+			// one character: code point 48+d
+			return mkApp(SStr, "str.from_code", tIntOp("+", mkIntC(48), tBV2Int(tExtract(3, 0, d))))
+		}
+		// the number of digits is a fork (at most D paths), the digits stay symbolic
+		n := 1
+		pow := uint64(10)
+		for n < D && !c.branch(tBVCmp("bvult", x, mkBV(16, pow)), "fmt-digits") {
+			n++
+			pow *= 10
+		}
+		var r *Term
+		pow = 1
+		for i := 0; i < n; i++ {
+			di := tBV2("bvurem", tBV2("bvudiv", x, mkBV(16, pow)), mkBV(16, 10))
+			if i == 0 {
+				r = digit(di)
+			} else {
+				r = tConcat(digit(di), r)
+			}
+			pow *= 10
+		}
+		return r
+	}
 	fn := "fmtU64"
 	if signed {
 		fn = "fmtI64"
